@@ -72,6 +72,14 @@ pub fn stub_now() -> chrono::DateTime<chrono::Utc> {
     kani::assume(sec < 86_400);
     mk_time(day, sec)
 }
+/// The same with a sub-second part (the sweep compares WHOLE seconds of a difference of two
+/// instants that both have fractions).
+#[cfg(kani)]
+pub fn mk_time_ns(day: u32, sec: u32, nano: u32) -> chrono::DateTime<chrono::Utc> {
+    let d = chrono::NaiveDate::from_yo_opt(2026, day).unwrap();
+    let t = chrono::NaiveTime::from_num_seconds_from_midnight_opt(sec, nano).unwrap();
+    chrono::DateTime::<chrono::Utc>::from_naive_utc_and_offset(chrono::NaiveDateTime::new(d, t), chrono::Utc)
+}
 #[cfg(kani)]
 pub fn mk_time(day: u32, sec: u32) -> chrono::DateTime<chrono::Utc> {
     let d = chrono::NaiveDate::from_yo_opt(2026, day).unwrap();
